@@ -247,6 +247,7 @@ class SimSocket:
         self.accept_armed = cfg.get("arm", "open") == "connect"  # short writes start after the HTTP request
         self.send_fail = dict(cfg.get("send_fail", {}))  # {"call": n, "errno": "EPIPE"}
         self.send_calls = 0
+        self.send_eagain = set(int(x) for x in cfg.get("send_eagain", ()))
         self.timeout_at_connect = None
         self.opts_at_connect = None
         self.k.ev("socket", self.fd, int(family), int(type), int(proto))
@@ -423,6 +424,13 @@ class SimSocket:
             raise BrokenPipeError(errno.EPIPE, "Broken pipe")
         if self.rx_reset:
             raise BrokenPipeError(errno.EPIPE, "Broken pipe")
+        if self.send_eagain and self.accept_armed and self.timeout != 0 and self.send_calls in self.send_eagain:
+            # buggify: a usually-successful call reports 'would block' once; the library claims to handle it
+            self.send_eagain.discard(self.send_calls)
+            self.send_eagain.discard(self.send_calls + 1)  # the retry after 'writable' succeeds
+            self.net.count("send_eagain")
+            k.ev("send_eagain", self.fd)
+            raise BlockingIOError(errno.EAGAIN, "Resource temporarily unavailable")
         n = len(data)
         if n and self.accept and self.accept_armed:
             if self.ac_idx < len(self.accept) or self.accept_cyclic:
